@@ -157,10 +157,11 @@ Lemma w_no_type_served :
   = [("nt", ["Manifest.mpd"], ["V300"], Some "V300", 8000)].
 Proof. vm_compute. reflexivity. Qed.
 
-(** An MPD without mediaPresentationDuration: loadAsset calls String() on the nil duration, the start-up panics. *)
+(** An MPD without mediaPresentationDuration is loaded (08be6b2; before, loadAsset called String()
+    on the nil duration and the start-up panicked). *)
 Definition w_l7 : mpd_list :=
   [("nd", "Manifest.mpd", MNoDur [ {| as_has_template := true; as_ctype := "video"; as_reps := [(false, w_v300)] |} ])].
-Lemma w_no_duration_panics :
-  match discover stored enc0 dec0 mode_scan w_l7 (fun _ _ => CAbsent) with Panic s => s | _ => "" end
-  = "loadAsset: invalid memory address or nil pointer dereference".
+Lemma w_no_duration_served :
+  served_ids (discover stored enc0 dec0 mode_scan w_l7 (fun _ _ => CAbsent))
+  = [("nd", ["Manifest.mpd"], ["V300"], Some "V300", 8000)].
 Proof. vm_compute. reflexivity. Qed.
